@@ -95,18 +95,21 @@ impl Exec for CtorExec {
                 },
                 ("file", "from_file") if !fixed => MmapRegion::<()>::from_file(FileOffset::from_arc(f.clone(), foff), size),
                 ("file", "build") => MmapRegion::<()>::build(Some(FileOffset::from_arc(f.clone(), foff)), size, prot, flags),
-                ("file", _) => MmapRegionBuilder::<()>::new(size)
-                    .with_file_offset(FileOffset::from_arc(f.clone(), foff))
-                    .with_mmap_prot(prot)
-                    .with_mmap_flags(flags)
-                    .build(),
+                ("file", _) => {
+                    let mut b = MmapRegionBuilder::<()>::new(size).with_file_offset(FileOffset::from_arc(f.clone(), foff)).with_mmap_prot(prot).with_mmap_flags(flags);
+                    // the hugetlbfs attribute is a hint carried along: it must not change which requests are accepted
+                    if let Some(h) = line["a"]["huge"].as_bool() {
+                        b = b.with_hugetlbfs(h);
+                    }
+                    b.build()
+                }
                 ("anon", "new") if !fixed => MmapRegion::<()>::new(size),
                 ("anon", "build") => MmapRegion::<()>::build(None, size, prot, flags),
                 _ => MmapRegionBuilder::<()>::new(size).with_mmap_prot(prot).with_mmap_flags(flags).build(),
             };
             match res {
                 Ok(region) => {
-                    let mut v = json!({"k": "ok", "size": region.size(), "prot": region.prot(), "flags": region.flags(), "owned": region.owned(),
+                    let mut v = json!({"k": "ok", "size": region.size(), "prot": region.prot(), "flags": region.flags(), "owned": region.owned(), "huge": region.is_hugetlbfs().map(|b| b as u32).unwrap_or(2),
                                        "has_file": region.file_offset().is_some(), "foff": region.file_offset().map(|x| x.start()).unwrap_or(0),
                                        "req_prot": prot, "req_flags": if (kind.as_str(), api.as_str()) == ("file", "from_file") { libc::MAP_SHARED | libc::MAP_NORESERVE }
                                                                    else if (kind.as_str(), api.as_str()) == ("anon", "new") { libc::MAP_ANONYMOUS | libc::MAP_PRIVATE | libc::MAP_NORESERVE }
